@@ -758,13 +758,13 @@ func buildProgram(i int64, r *rand.Rand, thorough bool) *program {
 			p.ops = append(p.ops, &op{kind: kUint, n: 1, v: 5}, &op{kind: kUnwrite, n: 1}, &op{kind: kBytes, n: 0})
 		}
 	case 11:
-		if thorough && sub%40 == 0 {
+		if thorough && sub%80 == 0 {
 			p.plan = "big-2^24"
 			growCtor()
 			if p.slack > 300 {
 				p.slack = 0
 			}
-			b := bigBoundaries[(sub/40)%len(bigBoundaries)]
+			b := bigBoundaries[(sub/80)%len(bigBoundaries)]
 			core := &op{kind: b.kind, n: b.lenLen, tag: 0x30, kids: []*op{{kind: kUint, n: 1, v: 1}, {kind: kBytes, n: int(b.target - 1), seed: byte(r.IntN(256))}}}
 			cs, _, _ := arithLevel([]*op{{kind: kBytes, n: int(b.target) + 6}})
 			p.ops = g.wrap([]*op{core}, cs, r.IntN(3), r.IntN(2) == 0)
@@ -897,7 +897,7 @@ func TestC22(t *testing.T) {
 	m.Gate("fixed_alias_checked", 1000, "result aliases the given array")
 	m.Gate("error_expected:fixed-exceeded", 500, "fixed builder with insufficient capacity")
 	if m.Thorough() {
-		m.Gate("plan:big-2^24", 500, "programs with a 2^24±1 container")
+		m.Gate("plan:big-2^24", 300, "programs with a 2^24±1 container")
 		m.Gate("overflow_u24_by_one", 20, "24-bit prefix with exactly 2^24 content bytes")
 		m.Gate("fit_u24_max", 20, "24-bit prefix with 2^24-1 content bytes")
 	}
